@@ -617,6 +617,13 @@ func (e *Env) call(x *CallE) Val {
 		}
 		_, present := e.mapGet(sc, mt, x.Args[1])
 		return Sc{present, boolTyp}
+	case "umod":
+		// umod(x, n): the mathematical (Euclidean) remainder, as in unsigned wrap-around arithmetic
+		if fx.bv {
+			cfail("umod is for mode int")
+		}
+		a, b := e.eval(x.Args[0]).(Sc), e.eval(x.Args[1]).(Sc)
+		return Sc{app("mod", SInt, a.T, b.T), types.Typ[types.Int]}
 	case "pure0", "pure1":
 		// pureN("pkg.Func", args...): result N of a pure (trusted) library function
 		lit, ok := x.Args[0].(*StrLit)
